@@ -265,6 +265,10 @@ impl SimDisk {
         self.lock().digest
     }
     /// True when the last operation that answered `Pending` was never driven to completion.
+    /// Signature of the schedule policy (transfer rules + Pending rules, without the seed).
+    pub fn policy_sig(&self) -> u64 {
+        crate::rng::hash_str(&self.lock().policy.tag())
+    }
     pub fn has_abandoned_op(&self) -> bool {
         self.lock().pend_left.is_some()
     }
